@@ -26,6 +26,14 @@ def pad2 (n : Nat) : Str := [48 + n / 10 % 10, 48 + n % 10]
 /-- `f'{y:04d}'` for `y < 10000` (`datetime.year ≤ 9999`) -/
 def pad4 (y : Nat) : Str := [48 + y / 1000 % 10, 48 + y / 100 % 10, 48 + y / 10 % 10, 48 + y % 10]
 
+/-- decimal digits of `n` (fuel-bounded so that it is structurally recursive; `natStr` uses enough fuel) -/
+def natDigits : Nat → Nat → Str
+  | 0, _ => []
+  | fuel + 1, n => if n < 10 then [48 + n] else natDigits fuel (n / 10) ++ [48 + n % 10]
+
+/-- `str(n)` for a natural number -/
+def natStr (n : Nat) : Str := natDigits (n + 1) n
+
 /-- `DateTimeFormatUtil.format_date` / `luis_date` with a definite year: `f'{y:04d}-{m:02d}-{d:02d}'` -/
 def formatDate (x : Date) : Str := pad4 x.y ++ [45] ++ pad2 x.m ++ [45] ++ pad2 x.d
 /-- `format_time`: `f'{h:02d}:{m:02d}:{s:02d}'` -/
@@ -59,9 +67,15 @@ def parseDateTime (s : Str) : Option (Date × Nat) :=
     | _, _ => none
   else none
 
-/-- a duration value: a non-negative decimal number (digits, optionally `.` digits) -/
+/-- longest prefix of ASCII digits and the rest (`List.span isDigit`, written structurally) -/
+def spanDigits : Str → Str × Str
+  | [] => ([], [])
+  | c :: r => if isDigit c then ((c :: (spanDigits r).1), (spanDigits r).2) else ([], c :: r)
+
+/-- a duration value: a decimal number of seconds (optional sign, digits, optionally `.` digits) -/
 def isNumber (s : Str) : Bool :=
-  match s.span isDigit with
+  let s := match s with | 45 :: r => r | _ => s
+  match spanDigits s with
   | (ip, []) => !ip.isEmpty
   | (ip, 46 :: fp) => !ip.isEmpty && !fp.isEmpty && fp.all isDigit
   | _ => false
@@ -74,15 +88,15 @@ structure Value where
   start : Option Str
   stop : Option Str
 
-def sDate : Str := "date".toList.map Char.toNat
-def sTime : Str := "time".toList.map Char.toNat
-def sDateTime : Str := "datetime".toList.map Char.toNat
-def sDuration : Str := "duration".toList.map Char.toNat
-def sDateRange : Str := "daterange".toList.map Char.toNat
-def sTimeRange : Str := "timerange".toList.map Char.toNat
-def sDateTimeRange : Str := "datetimerange".toList.map Char.toNat
-def sSet : Str := "set".toList.map Char.toNat
-def sNotResolved : Str := "not resolved".toList.map Char.toNat
+def sDate : Str := [100, 97, 116, 101]   -- 'date'
+def sTime : Str := [116, 105, 109, 101]   -- 'time'
+def sDateTime : Str := [100, 97, 116, 101, 116, 105, 109, 101]   -- 'datetime'
+def sDuration : Str := [100, 117, 114, 97, 116, 105, 111, 110]   -- 'duration'
+def sDateRange : Str := [100, 97, 116, 101, 114, 97, 110, 103, 101]   -- 'daterange'
+def sTimeRange : Str := [116, 105, 109, 101, 114, 97, 110, 103, 101]   -- 'timerange'
+def sDateTimeRange : Str := [100, 97, 116, 101, 116, 105, 109, 101, 114, 97, 110, 103, 101]   -- 'datetimerange'
+def sSet : Str := [115, 101, 116]   -- 'set'
+def sNotResolved : Str := [110, 111, 116, 32, 114, 101, 115, 111, 108, 118, 101, 100]   -- 'not resolved'
 
 def optOk (p : Str → Bool) : Option Str → Bool
   | none => true
@@ -155,7 +169,7 @@ def definiteOK (v : Value) : Bool :=
        else true)
     else true
 
-def sPrefix : Str := "datetimeV2.".toList.map Char.toNat
+def sPrefix : Str := [100, 97, 116, 101, 116, 105, 109, 101, 86, 50, 46]   -- 'datetimeV2.'
 
 /-- C11: the entity's type name equals `datetimeV2.` ++ the type of (each of) its values. -/
 def typeNameOK (typeName : Str) (vs : List Value) : Bool := vs.all fun v => typeName = sPrefix ++ v.type
@@ -175,7 +189,7 @@ def splitOn (sep : Nat) : Str → List Str
 
 /-- decimal amount `N` or `N.F` as a rational (num, den) -/
 def amount (s : Str) : Option (Nat × Nat) :=
-  match s.span isDigit with
+  match spanDigits s with
   | (ip, []) => (digits ip).map (·, 1)
   | (ip, 46 :: fp) =>
     match digits ip, digits fp with
@@ -204,6 +218,30 @@ def parseDuration (s : Str) : Option ((Nat × Nat) × DUnit) :=
     | _, _ => none
   | _ => none
 
+/-- `PT<a>H<b>M<c>S` (any subset, in this order or not; amounts may be decimals) → total seconds as a rational.
+Fuel-bounded scan: amount, unit letter, repeat. `none` if anything else is met. -/
+def ptSeconds : Nat → Str → Option (Nat × Nat)
+  | 0, _ => none
+  | _ + 1, [] => some (0, 1)
+  | fuel + 1, s =>
+    match spanDigits s with
+    | (ip, 46 :: r) =>
+      (match spanDigits r with
+       | (fp, u :: rest) =>
+         (match digits ip, digits fp, (if u = 72 then some 3600 else if u = 77 then some 60 else if u = 83 then some 1 else none),
+                ptSeconds fuel rest with
+          | some a, some b, some k, some (n, d) =>
+            let den := 10 ^ fp.length
+            some ((a * den + b) * k * d + n * den, den * d)
+          | _, _, _, _ => none)
+       | _ => none)
+    | (ip, u :: rest) =>
+      (match digits ip, (if u = 72 then some 3600 else if u = 77 then some 60 else if u = 83 then some 1 else none),
+             ptSeconds fuel rest with
+       | some a, some k, some (n, d) => some (a * k * d + n, d)
+       | _, _, _ => none)
+    | _ => none
+
 /-- a definite point inside a triple: date, time, or datetime `YYYY-MM-DDTHH[:MM[:SS]]` → (ordinal or 0, seconds) -/
 def parsePoint (s : Str) : Option (Option Date × Option Nat) :=
   match parseDate s with
@@ -218,12 +256,12 @@ def parsePoint (s : Str) : Option (Option Date × Option Nat) :=
         | _, _ => none
       else none
 
-/-- seconds between two points of the same kind (`none` = different kinds); time-only ranges may wrap midnight? no:
-the code never wraps, so end < start makes the check fail. -/
+/-- seconds between two points of the same kind (`none` = different kinds); for two times of day the difference is
+taken modulo 24 h (17:00 → 03:00 is ten hours). -/
 def diffSeconds (a b : Option Date × Option Nat) : Option Int :=
   match a, b with
   | (some d1, none), (some d2, none) => some (((d2.ord : Int) - d1.ord) * 86400)
-  | (none, some t1), (none, some t2) => some ((t2 : Int) - t1)
+  | (none, some t1), (none, some t2) => some (((t2 : Int) - t1) % 86400)   -- a time-of-day range may cross midnight
   | (some d1, some t1), (some d2, some t2) => some (((d2.ord : Int) - d1.ord) * 86400 + ((t2 : Int) - t1))
   | _, _ => none
 
@@ -261,7 +299,14 @@ def tripleOK (timex : Str) (start stop : Option Str) : Bool :=
                 | some d1, some d2 => den = 1 ∧ (d2.y : Int) - d1.y = n ∧ d1.m = d2.m ∧ d1.d = d2.d
                 | _, _ => false)
              | u => secs * den = (n * unitSeconds u : Nat))
-          | none, _ => true      -- composite or open duration (`PT1H30M`, `PXD`): checked by `spanOK` below
+          | none, some secs =>
+            -- composite `PT1H30M`: compared through seconds; anything else (`PXD`, `P1Y2M`) is not definite: nothing demanded
+            (match p with
+             | 80 :: 84 :: rest =>
+               (match ptSeconds (rest.length + 1) rest with
+                | some (n, d) => rest ≠ [] → secs * d = (n : Int)
+                | none => true)
+             | _ => true)
           | _, none => false
         endsOK && durOK
       | _, _ => true   -- not definite: nothing demanded
@@ -275,11 +320,50 @@ def luisTimeSpan (secs : Nat) : Str :=
   let h := r / 3600
   let m := r % 3600 / 60
   let s := r % 3600 % 60
-  let nat (n : Nat) : Str := (toString n).toList.map Char.toNat
+  let nat (n : Nat) : Str := natStr n
   [80, 84] ++ (if days > 0 ∨ h > 0 then nat (days * 24 + h) ++ [72] else []) ++
     (if m > 0 then nat m ++ [77] else []) ++ (if s > 0 then nat s ++ [83] else [])
 
 /-- seconds denoted by the H/M/S components `luis_time_span` writes -/
 def spanSeconds (hms : Nat × Nat × Nat) : Nat := hms.1 * 3600 + hms.2.1 * 60 + hms.2.2
+
+/-- `BaseDurationParser`: number × unit → TIMEX `P[T]<n><U>`; `code` is the unit code of `unit_map` (`Y`, `MON`, `W`,
+`D`, `H`, `M`, `S`); the `T` is written for units shorter than a day (`is_less_than_day`: S, M, H). -/
+def durationTimex (n : Nat) (code : Str) : Str :=
+  let isTime := code = [83] ∨ code = [77] ∨ code = [72]
+  [80] ++ (if isTime then [84] else []) ++ natStr n ++ code.take 1
+
+/-- seconds per unit code as `UnitValueMap` must assign them (checked against the regenerated maps) -/
+def codeSeconds (code : Str) : Option Nat :=
+  if code = [83] then some 1 else if code = [77] then some 60 else if code = [72] then some 3600
+  else if code = [68] then some 86400 else if code = [87] then some 604800
+  else if code = [77, 79, 78] then some 2592000 else if code = [89] then some 31536000 else none
+
+/-- `_determine_date_time_types` with default options (no SPLIT_DATE_AND_TIME): a before/after/since modifier turns
+a point into the period type. -/
+def determineType (dtype : Str) (hasMod : Bool) : Str :=
+  if hasMod then
+    if dtype = sDate then sDateRange
+    else if dtype = sTime then sTimeRange
+    else if dtype = sDateTime then sDateTimeRange
+    else dtype
+  else dtype
+
+def startsWith (s p : Str) : Bool := s.take p.length = p
+def minValue : Str := [48, 48, 48, 49, 45, 48, 49, 45, 48, 49]   -- '0001-01-01'
+
+/-- `__add_single_date_time_to_resolution` without modifier: the value is dropped when empty or when it starts with
+the minimum date. -/
+def addSingle (value : Str) : Option Str := if value = [] ∨ startsWith value minValue then none else some value
+
+/-- `_date_time_resolution` for a date/time/datetime slot without modifier or comment: equal past and future collapse
+into one value; nothing left → one `'not resolved'` value. -/
+def resolveSingle (outType timex past future : Str) : List Value :=
+  let mk (v : Str) : Value := ⟨outType, timex, some v, none, none⟩
+  match addSingle past, addSingle future with
+  | none, none => [mk sNotResolved]
+  | some p, none => [mk p]
+  | none, some f => [mk f]
+  | some p, some f => if p = f then [mk p] else [mk p, mk f]
 
 end RTV.WF
